@@ -82,6 +82,7 @@ type Engine struct {
 	curVisited string
 	siteDeps  map[string][]int
 	exposing  bool
+	bodyOrd   map[string]int
 	noOutside bool
 	needs     map[int][]string // conditional assumptions: included only when one of the symbols occurs in the query
 }
@@ -90,7 +91,7 @@ func NewEngine(p *Program, fn *ssa.Function, fc *FuncContract) *Engine {
 	return &Engine{P: p, Fn: fn, FC: fc, FuncID: p.FuncIDOf(fn), declared: map[string]bool{}, reified: map[int]bool{},
 		labels: map[string]*callLabel{}, callOrd: map[string]int{}, kindOrd: map[string]int{}, notes: map[string]bool{},
 		used: map[string]bool{}, strlits: map[string]string{}, siteType: map[int]types.Type{}, params: map[string]Val{},
-		ghost: map[string]Term{}, safetyOn: true, loopPre: map[string]*State{}, autoInvs: map[string][]autoChk{}, rangeOf: map[*ssa.Range]Val{}, strSeen: map[string]bool{}, needs: map[int][]string{}, siteDeps: map[string][]int{}}
+		ghost: map[string]Term{}, safetyOn: true, loopPre: map[string]*State{}, autoInvs: map[string][]autoChk{}, rangeOf: map[*ssa.Range]Val{}, strSeen: map[string]bool{}, bodyOrd: map[string]int{}, needs: map[int][]string{}, siteDeps: map[string][]int{}}
 }
 
 func (e *Engine) note(format string, args ...interface{}) {
@@ -198,7 +199,7 @@ func (e *Engine) assumeIfRelevant(t Term, symbols []string) {
 	e.assumes = append(e.assumes, t)
 }
 
-var symRe = regexp.MustCompile(`\|?(spec\.[A-Za-z0-9_]+|str_fold|str_lower|str_hasprefix|G\.[A-Za-z0-9_.$]+)\|?`)
+var symRe = regexp.MustCompile(`\|?(spec\.[A-Za-z0-9_/]+|str_fold|str_lower|str_hasprefix|bxor|G\.[A-Za-z0-9_.$]+)\|?`)
 
 // symbolsOf: uninterpreted functions and global components a formula talks about.
 func symbolsOf(t Term) []string {
@@ -211,6 +212,19 @@ func symbolsOf(t Term) []string {
 		}
 	}
 	return out
+}
+
+// name always introduces a constant for a compound term (needed where the term occurs in a quantifier pattern).
+func (e *Engine) name(prefix string, t Term) Term {
+	if !strings.ContainsAny(t.S, "( ") {
+		return t
+	}
+	c := e.fresh(prefix, t.Sort)
+	e.assumes = append(e.assumes, Eq(c, t))
+	if ds := e.sitesIn(t.S); len(ds) > 0 {
+		e.siteDeps[c.S] = ds
+	}
+	return c
 }
 
 func (e *Engine) assume(reach, t Term) {
